@@ -77,7 +77,7 @@ class O_StreamWrapper(IOBase):
             return self.readall()
 
         self.true_size = size
-        if self.end_of_file is not None and self.end_of_file > 0:
+        if self.end_of_file is not None:  # as in the tree after the empty-view fix
             self.true_size = min(self.end_of_file - self.position, size)
         if self.true_size < 0:
             self.true_size = 0
@@ -226,7 +226,13 @@ class O_FileStream(O_SectorStream):
         self.sector_list = sector_list
 
     def _get_address_given_sector_index(self, sector_index, offset):
-        sector = self.sector_list[sector_index]
+        try:  # as in the tree after the short-read fix (d08b0af)
+            sector = self.sector_list[sector_index]
+        except IndexError as e:
+            raise O_SectorReadError(
+                f"Sector {sector_index} lies beyond the "
+                f"{len(self.sector_list)} sectors of the file."
+            ) from e
         result = super()._get_address_given_sector_index(sector, offset)
         return result
 
